@@ -39,18 +39,32 @@ def env():
     BM = tlb.BackendManager
     TM = tlt.TenalgBackendManager
     stubs = {}
+    funcs = frozenset(BM._functions)
+    import threading
+
+    executed = threading.local()  # per sim-thread: tags of the stub/instance backends whose dispatched methods ran
+
+    def _tagging_getattribute(self, name):
+        v = object.__getattribute__(self, name)
+        if name in funcs and callable(v):
+            tag = object.__getattribute__(self, "tag")
+
+            def recorded(*a, **k):
+                executed.__dict__.setdefault("tags", []).append(tag)
+                return v(*a, **k)
+
+            return recorded
+        return v
+
     for nm in ("jax", "cupy", "pytorch"):
         if nm in Backend._available_backends:
             raise HarnessError(f"real backend {nm} registered; stubs would shadow it")
-
-        def _trace(self, x):
-            return self.tag
-
-        def _eye(self, n):
-            return self.tag
-
-        cls = type("Stub_" + nm, (NumpyBackend,), {"trace": _trace, "eye": _eye, "tag": nm}, backend_name=nm)
+        # a stub computes with NumPy, but every dispatched method it executes records the stub's tag
+        cls = type("Stub_" + nm, (NumpyBackend,), {"__getattribute__": _tagging_getattribute, "tag": nm}, backend_name=nm)
         stubs[nm] = cls
+    stock = Backend._available_backends["numpy"]
+    tagged_numpy = type("TaggedNumpy", (NumpyBackend,), {"__getattribute__": _tagging_getattribute, "tag": "numpy@1"}, backend_name="numpy")
+    Backend._available_backends["numpy"] = stock  # the registry keeps the stock class under "numpy"
     be_file = inspect.getsourcefile(BM)
     ta_file = inspect.getsourcefile(TM)
     _ENV.update(
@@ -61,6 +75,8 @@ def env():
         TM=TM,
         NumpyBackend=NumpyBackend,
         stubs=stubs,
+        tagged_numpy=tagged_numpy,
+        executed=executed,
         traced=((be_file, "be"), (ta_file, "ta")),
         probe_dirs={os.sep + "core_tenalg" + os.sep: "core", os.sep + "einsum_tenalg" + os.sep: "einsum"},
         A=np.arange(4.0).reshape(2, 2),
@@ -75,6 +91,36 @@ BE_BAD = ["bogus", "tensorflow"]  # unknown name / known name whose import fails
 TA_VALID = ["core", "einsum"]
 TA_BAD = ["bogus"]
 EXC_KINDS = ["Exception", "BaseException", "KeyboardInterrupt", "StopIteration", "GeneratorExit"]
+
+
+# dispatched functions used as probes: index 0 is used half of the time (so that per-function faults such
+# as a stale per-name cache see the same function twice), the others cover the rest of the dispatch table
+BE_PROBES = [
+    lambda tl, A, B: tl.trace(B),
+    lambda tl, A, B: tl.eye(2),
+    lambda tl, A, B: tl.tensor([1.0, 2.0]),
+    lambda tl, A, B: tl.shape(A),
+    lambda tl, A, B: tl.dot(A, B),
+    lambda tl, A, B: tl.reshape(A, (4,)),
+    lambda tl, A, B: tl.norm(A),
+    lambda tl, A, B: tl.sum(A),
+    lambda tl, A, B: tl.transpose(A),
+    lambda tl, A, B: tl.zeros((2,)),
+    lambda tl, A, B: tl.copy(A),
+    lambda tl, A, B: tl.abs(A),
+]
+TA_PROBES = [
+    lambda ta, A, B: ta.kronecker([A, B]),
+    lambda ta, A, B: ta.inner(A, B),
+    lambda ta, A, B: ta.khatri_rao([A, B]),
+    lambda ta, A, B: ta.mode_dot(A, B, 0),
+    lambda ta, A, B: ta.outer([A[0], B[0]]),
+    lambda ta, A, B: ta.multi_mode_dot(A, [B, B]),
+]
+
+
+def pick_probe(rng):
+    return 0 if rng.random() < 0.5 else rng.randrange(1, 12)
 
 
 class SimExc(Exception):
@@ -151,7 +197,7 @@ def _gen_ops(rng, cfg, depth, budget):
         elif r < 2.5:
             ops.append({"op": "get", "mgr": mgr})
         elif r < 3.5:
-            ops.append({"op": "probe", "mgr": mgr, "fn": 0 if rng.random() < 0.7 else 1})
+            ops.append({"op": "probe", "mgr": mgr, "fn": pick_probe(rng)})
         elif r < 4.0:
             ops.append({"op": "attr", "mgr": "be"} if "be" in cfg["mgrs"] else {"op": "get", "mgr": mgr})
         else:
@@ -185,7 +231,7 @@ def gen_record(rng):
         ops = []
         for _ in range(rng.randint(1, 4)):
             m = rng.choice(cfg["mgrs"])
-            ops.append({"op": rng.choice(["get", "probe"]), "mgr": m, "fn": 0 if rng.random() < 0.7 else 1})
+            ops.append({"op": rng.choice(["get", "probe"]), "mgr": m, "fn": pick_probe(rng)})
         threads.append({"role": "observer", "ops": ops + final_ops(cfg)})
     threads.append({"role": "fresh", "gated": True, "ops": final_ops(cfg)})
     return {"property": PROP, "config": cfg, "threads": threads}
@@ -246,9 +292,7 @@ class Run:
         # the controller thread must not keep a private selection that masks the default
         BM._THREAD_LOCAL_DATA.__dict__.clear()
         TM._THREAD_LOCAL_DATA.__dict__.clear()
-        n1 = E["NumpyBackend"]()
-        n1.trace = lambda x: "numpy@1"
-        n1.eye = lambda n: "numpy@1"
+        n1 = E["tagged_numpy"]()
         j1 = E["stubs"]["jax"]()
         j1.tag = "jax@1"
         self.insts = {"numpy@1": n1, "jax@1": j1}
@@ -289,15 +333,15 @@ class Run:
                 # dispatch fault (stale per-name cache, static dispatch of a subset) is observable
                 fn = op.get("fn", 0)
                 h = self.invoke(t, "probe", mgr=op["mgr"], fn=fn)
+                A, B, tl_, ta_ = self.E["A"], self.E["B"], self.E["tl"], self.E["tlt"]
                 if op["mgr"] == "be":
-                    v = self.E["tl"].trace(self.E["B"]) if fn == 0 else self.E["tl"].eye(2)
-                    self.ret(h, v if isinstance(v, str) else "numpy")
+                    ex = self.E["executed"].__dict__.setdefault("tags", [])
+                    del ex[:]
+                    BE_PROBES[fn % len(BE_PROBES)](tl_, A, B)
+                    self.ret(h, ex[0] if ex else "numpy")
                 else:
                     del t.probe_hits[:]
-                    if fn == 0:
-                        self.E["tlt"].kronecker([self.E["A"], self.E["B"]])
-                    else:
-                        self.E["tlt"].inner(self.E["A"], self.E["B"])
+                    TA_PROBES[fn % len(TA_PROBES)](ta_, A, B)
                     hits = t.probe_hits
                     self.ret(h, hits[0] if hits else "none")
             elif k == "set":
